@@ -1168,6 +1168,25 @@ func genRandomString() (string, error) {
 	return base64.RawURLEncoding.EncodeToString(rb), nil
 }
 
+// isLocalLoginDestination returns true if a browser will resolve the
+// destination inside our own origin: it starts with a single slash, is not
+// followed by a slash or backslash (browsers treat \ as / and both start a
+// scheme relative URL) and has no control chars (browsers strip tabs/newlines).
+func isLocalLoginDestination(destination string) bool {
+	if !strings.HasPrefix(destination, "/") {
+		return false
+	}
+	if len(destination) > 1 && (destination[1] == '/' || destination[1] == '\\') {
+		return false
+	}
+	for i := 0; i < len(destination); i++ {
+		if destination[i] < 0x20 || destination[i] == 0x7f {
+			return false
+		}
+	}
+	return true
+}
+
 // We need to ensure that all login destinations are relative paths
 // Thus the path MUST start with a / but MUST NOT start with a //, because
 // // is interpreted as: use whatever protocol you think is OK
@@ -1175,8 +1194,7 @@ func getLoginDestination(r *http.Request) string {
 	loginDestination := profilePath
 	if r.FormValue("login_destination") != "" {
 		inboundLoginDestination := r.Form.Get("login_destination")
-		if strings.HasPrefix(inboundLoginDestination, "/") &&
-			!strings.HasPrefix(inboundLoginDestination, "//") {
+		if isLocalLoginDestination(inboundLoginDestination) {
 			loginDestination = inboundLoginDestination
 		}
 	}
